@@ -1,4 +1,5 @@
 import Enc.Model.Proto
+import Enc.Model.ProtoTo
 import Enc.Spec.Protobuf
 import Enc.Spec.Known
 /-! line-protocol handlers, area `proto`. -/
@@ -54,7 +55,13 @@ def handle (op : String) (args : List String) : Option (String × String × Stri
     let b := Model.Proto.marshal ty v
     let m := s!"sz={Model.Proto.marshalSize ty v};len={b.length};rt=" ++ showDec ty (Model.Proto.unmarshal ty b)
     pure (m, "-", String.intercalate "," (Known.protoClasses ty v))
-  | "proto.decode", [ty, h, _want] => handle "proto.decode" [ty, h]
+  | "proto.decode", [tys, h, want] => do
+    let (m, s, k) ← handle "proto.decode" [tys, h]
+    let ty ← Ty.parse tys
+    let k2 := match Val.parse ((want.drop 3).toString) with
+      | some v => Known.protoClasses ty v
+      | none => []
+    pure (m, s, String.intercalate "," ((k.splitOn ",").filter (· ≠ "") ++ k2))
   | "proto.decode", [ty, h] => do
     let ty ← Ty.parse ty
     let b ← fromHex h
@@ -64,6 +71,20 @@ def handle (op : String) (args : List String) : Option (String × String × Stri
     pure (showDec ty (Model.Proto.unmarshal ty b), s,
           String.intercalate "," ((if Known.hasRepeatedZigzagOrFixed ty then ["protoRepeatedZigzagOrFixed"] else [])
             ++ (if Known.hasWideFieldNumber ty then ["protoFieldNumberUint16"] else [])))
+  | "proto.marshalto", [ty, v, n] => do
+    let ty ← Ty.parse ty
+    let v ← Val.parse v
+    let n ← n.toNat?
+    let size := Model.Proto.marshalSize ty v
+    let m := match Model.Proto.marshalTo ty v n with
+      | .ok b =>
+        if n ≥ size then s!"ok:n={b.length};bytes=" ++ (if b == Model.Proto.marshal ty v then "same" else "differ") ++ ";guard=1"
+        else s!"ok:n={b.length}"
+      | .err _ => if n ≥ size then "err" else "shortbuffer;guard=1"
+      | .panic e => "panic:" ++ e
+    -- spec: the statement of C16 itself
+    let s := if n ≥ size then s!"ok:n={size};bytes=same;guard=1" else "shortbuffer;guard=1"
+    pure (m, s, "")
   | "proto.decodeany", [ty, h] => do
     let ty ← Ty.parse ty
     let b ← fromHex h
